@@ -323,6 +323,17 @@ def run_actions(actions, phase, ctx):
             start_thread(a, ctx)
         elif do == 'release':
             release_thread(a['ev'], a.get('wait_gone', True))
+        elif do == 'touch_thread':
+            rec = _thread_events.get(a['ev'])
+            if rec is not None and rec.get('touch_ev') is not None and \
+                    not rec.get('released'):
+                rec['touch_ev'].set()
+                deadline = time.monotonic() + 5
+                while not rec.get('touched') and \
+                        time.monotonic() < deadline:
+                    time.sleep(0.0005)
+                emit('thread.touched', key=a['ev'], ok=bool(
+                    rec.get('touched')))
         elif do == 'garbage':
             make_garbage(a)
         elif do == 'uncollectable':
@@ -411,9 +422,19 @@ def start_thread(a, ctx):
             # CPython < 3.13 keeps that entry after the thread has ended
             rec['name'] = threading.current_thread().name
         started.set()
+        if a.get('api') == '_thread_late':
+            # a low-level thread that starts to use the threading module
+            # only later (its first log message, say), while a later test
+            # is running: from then on threading knows it
+            rec['touch_ev'].wait()
+            if not rec.get('released'):
+                threading.current_thread()
+            rec['touched'] = True
         ev.wait()
         rec['finished'] = True
 
+    if a.get('api') == '_thread_late':
+        rec['touch_ev'] = threading.Event()
     if (a.get('api') or '').startswith('_thread'):
         import _thread
         rec['name'] = None      # such a thread has no name of its own
@@ -452,6 +473,8 @@ def release_thread(key, wait_gone=True):
     if rec is None or rec.get('released'):
         return
     rec['released'] = True
+    if rec.get('touch_ev') is not None:
+        rec['touch_ev'].set()
     rec['ev'].set()
     if rec.get('cancel'):
         rec['cancel']()
